@@ -5653,6 +5653,9 @@ def _leaf_asts_default(pat: _Pattern) -> tp_Set[type[AST]] | None:
         return AST2ASTSLEAF[pat._types]  # will be a single type here
 
     if isinstance(pat, AST):
+        if isinstance(pat, expr_context):  # Load, Store and Del instances match each other unless `ctx=True`
+            return AST2ASTSLEAF[expr_context]
+
         return AST2ASTSLEAF[pat.__class__]
 
     if isinstance(pat, str):  # gets here from a subclassed str
